@@ -6,7 +6,7 @@ namespace GoSup.CompLts
 open GoSup.Core GoSup.CompSeq
 
 structure Inv3 (s : St) : Prop where
-  booting : s.fsm = .booting → (s.run = .entered ∨ s.run = .booted)
+  booting : s.fsm = .booting → (s.run = .entered ∨ s.run = .bootFailed ∨ s.run = .booted)
   failing : ((∃ c, s.run = .failToStop c) ∨ (∃ p c, s.run = .failStopping p c)) → s.fsm = .error
 
 @[simp] theorem setChild_fsm (s : St) (g c : Nat) (st : ChildSt) : (setChild s g c st).fsm = s.fsm := rfl
@@ -47,7 +47,7 @@ open GoSup.Core GoSup.CompSeq
 structure Inv4 (s : St) : Prop where
   muRun : s.mu = some .run ↔ ((∃ p, s.run = .stopping p) ∨ (∃ p c, s.run = .failStopping p c))
   muRl  : s.mu = some .reload ↔ (∃ cfg p, s.rl = .stopping cfg p)
-  cfg   : s.cfg = none → (s.run = .idle ∨ s.run = .entered ∨ ∃ r, s.run = .returned r)
+  cfg   : s.cfg = none → (s.run = .idle ∨ s.run = .entered ∨ s.run = .bootFailed ∨ ∃ r, s.run = .returned r)
 
 theorem inv4_init (b : List Nat) : Inv4 (init b) := by
   refine ⟨?_, ?_, ?_⟩ <;> simp [init]
